@@ -14,6 +14,11 @@ def parseOp (s : String) : Option (String × Specs.Def) :=
   | n :: "l" :: deps => do pure (← decName n, .link (← deps.mapM decName))
   | [n, "i", m, sd] => do pure (← decName n, .ind (← decName m) (← decName sd))
   | [n, "o", m, sd] => do pure (← decName n, .pop (← decName m) (← decName sd))
+  | n :: "m" :: deds => do
+      let ds ← deds.mapM (fun t => match t.splitOn ":" with
+        | [dn, deps] => do pure (← decName dn, ← (splitNE deps ",").mapM decName)
+        | _ => none)
+      pure (← decName n, .param ds)
   | _ => none
 
 /-- the statements one after the other, recording which were refused -/
@@ -25,7 +30,7 @@ def runOps (ops : List (String × Specs.Def)) : Specs.Coll × List Bool :=
 /-
 request   build anc=<a,b;c;_;…>       one `;`-separated entry per node (rank in name order): its direct ancestors
 response  ok order=… ch=…;… an=…;…  |  err:input  |  err:value
-request   coll ops=<name~p | name~l~dep~… | name~i~mean~std | name~o~mean~std>|…      `nv[name] = var` statements in order
+request   coll ops=<name~p | name~l~dep~… | name~i~mean~std | name~o~mean~std | name~m~ded:dep,dep~…>|…      `nv[name] = var` statements in order
 response  ok=<1|0 per statement> keys=<iteration order> defs=<name:dep,dep;…>      (definitions in iteration order, dependencies sorted)
 -/
 def handle (line : String) : String :=
